@@ -650,8 +650,9 @@ pub fn run(args: &Args) {
     let kind_of = |s: &Src| -> usize { let b = match s { Src::Sub { inner, .. } => &**inner, x => x }; match b { Src::Mut { .. } => 0, Src::Enum { .. } => 1, Src::Rand { .. } => 2, _ => 3 } };
     // long inputs go to Coq only for models that run in linear time (the sequence decoders re-measure the
     // remaining slice in every iteration, the PA-Zip model appends to its observation list)
-    let coq_long_ok = |m: u32| matches!(m, 1 | 3 | 10..=26 | 50 | 51 | 52 | 80 | 81 | 90 | 91);
-    let modelled = |s: &Src| s.parser().map(|p| ps[p].model != 0 && (!matches!(s, Src::Long { .. }) || coq_long_ok(ps[p].model))).unwrap_or(false);
+    let coq_long_ok = |m: u32| matches!(m, 1 | 3 | 10..=26 | 50 | 51 | 52 | 80 | 81 | 90 | 91 | 100 | 103);
+    let is_long = |s: &Src| matches!(match s { Src::Sub { inner, .. } => &**inner, x => x }, Src::Long { .. });
+    let modelled = |s: &Src| s.parser().map(|p| ps[p].model != 0 && (!is_long(s) || coq_long_ok(ps[p].model))).unwrap_or(false);
     let mut kind_total = [0usize; 4];
     for s in srcs.iter().filter(|s| modelled(s)) { kind_total[kind_of(s)] += s.len(); }
     let share = [66usize, 14, 14, 6];
@@ -707,6 +708,13 @@ pub fn run(args: &Args) {
         sum.sample(json!({"parser": ps[*p].name, "valid_encoding": seed.iter().take(40).collect::<Vec<_>>()}));
     }
 
+    // auxiliary numbers of a case: inline, or the parser's index into the environment of the case file
+    let env_used: std::cell::RefCell<std::collections::BTreeMap<u32, usize>> = Default::default();
+    let aux_cache: std::cell::RefCell<std::collections::HashMap<usize, Vec<u64>>> = Default::default();
+    let aux_of = |p: usize| -> Vec<u64> {
+        if ps[p].env != 0 { env_used.borrow_mut().entry(ps[p].env).or_insert(p); return vec![ps[p].env as u64]; }
+        aux_cache.borrow_mut().entry(p).or_insert_with(|| (ps[p].aux)()).clone()
+    };
     // ---- oracle verdicts ---------------------------------------------------------------------------
     let mut failed: std::collections::HashSet<(usize, usize)> = Default::default();
     for f in &res.fails {
@@ -720,7 +728,7 @@ pub fn run(args: &Args) {
         cj["observed"] = json!(format!("{}: {}", f.kind, f.msg));
         sum.fail(name, class, cj, &format!("{} returned neither a value nor an error: {} ({}) on a {} input of {} bytes, arg {}", name, f.kind, f.msg, origin, bytes.len(), arg));
         if ps[p].model != 0 && coq_len(&bytes) <= 600 && shards.len() < 2 * coq_budget {
-            let term = coq_case(ps[p].model, arg, &(ps[p].aux)(), &bytes, 2, &[]);
+            let term = coq_case(ps[p].model, arg, &aux_of(p), &bytes, 2, &[]);
             let mut cj2 = case_json(name, arg, &bytes, origin);
             cj2["impl_obs"] = json!(format!("crash: {}", f.kind));
             shards.push(term, cj2);
@@ -731,12 +739,37 @@ pub fn run(args: &Args) {
         if failed.contains(&(o.src, o.i)) { continue; }
         let (p, arg, bytes, origin) = srcs[o.src].get(o.i);
         if ps[p].model == 0 || coq_len(&bytes) > 600 || shards.len() >= 2 * coq_budget { continue; }
-        let term = coq_case(ps[p].model, arg, &(ps[p].aux)(), &bytes, o.code, &o.vals);
+        let term = coq_case(ps[p].model, arg, &aux_of(p), &bytes, o.code, &o.vals);
         let mut cj = case_json(ps[p].name, arg, &bytes, origin);
         cj["impl_obs"] = json!({"code": o.code, "vals": o.vals.iter().map(|x| x.to_string()).collect::<Vec<_>>()});
         shards.push(term, cj);
     }
     sum.dist_max("coq_cases", shards.len() as u64);
+    // ---- case file header: the trained encoders, defined and parsed once per file -----------------
+    {
+        let mut h = String::from("From Coq Require Import Uint63.\nFrom ZV.Common Require Import Base Run.\nFrom ZV.C15 Require Import Model ModelCases.\nOpen Scope N_scope.\nDefinition case_t : Type := xcase.\n");
+        let mut entries = vec![];
+        for (&key, &p) in env_used.borrow().iter() {
+            let aux = (ps[p].aux)();
+            // 7 bytes per primitive-integer literal (coqc reads N literals at ~100 us each), in chunks
+            let mut words: Vec<String> = vec![];
+            for ch in aux.chunks(7) {
+                let mut w: u64 = 0;
+                for (i, b) in ch.iter().enumerate() { w |= (*b & 0xFF) << (8 * i); }
+                words.push(w.to_string());
+            }
+            let mut names = vec![];
+            for (k, ch) in words.chunks(2000).enumerate() {
+                h.push_str(&format!("Definition aux_{}_{} : list int := [{}]%uint63.\n", p, k, ch.join("; ")));
+                names.push(format!("aux_{}_{}", p, k));
+            }
+            if names.is_empty() { names.push("[]".to_string()); }
+            entries.push(format!("({}, {}, {})", key, aux.len(), names.join(" ++ ")));
+        }
+        h.push_str(&format!("Definition cenv : cenv_t := Eval vm_compute in mk_cenv [{}].\n", entries.join("; ")));
+        h.push_str("Definition ok (c : case_t) : bool := xok_env cenv c.\n");
+        shards.header = h;
+    }
     let sh = shards.write(&args.out);
     sum.write(&args.out, sh);
 }
